@@ -119,13 +119,6 @@ theorem store_root_depends_only_on_map (hok : HashOK H) (laws : StoreLaws S) (st
 
 /-! ### non-vacuity: a concrete history on a concrete lawful store -/
 
-/-- a node table as a function -/
-def funStore : StoreOps (Bytes → Option Prim) :=
-  ⟨fun st k => st k, fun st k p k' => if k = k' then some p else st k',
-   fun st k k' => if k = k' then none else st k'⟩
-
-theorem funStore_laws : StoreLaws funStore := ⟨fun _ _ _ _ => rfl, fun _ _ _ => rfl⟩
-
 example : AllOk H funStore (SMT.new (fun _ => none)) [] := trivial
 
 end FuelVerif.Smt
